@@ -83,6 +83,7 @@ class Proc:
         self.producer = None
         self.txn_no = None
         self.dead = False
+        self.stragglers = []
 
 
 async def _start_producer(case, c, tag):
@@ -201,9 +202,17 @@ async def _main(case, obs, loop, net):
                         if t["n"] == proc.txn_no:
                             t["offsets"] = (st[2], dict(st[1]))
                 r["offsets"] = (st[2], dict(st[1]))
+            elif kind == "straggle":
+                # application tasks that keep sending while the main task goes on to end the transaction; they are
+                # joined right after the end call returned (before the next transaction can begin)
+                for sub in st[1]:
+                    proc.stragglers.append(asyncio.ensure_future(run_steps(proc, sub)))
             elif kind in ("commit", "abort"):
                 fn = p.commit_transaction if kind == "commit" else p.abort_transaction
                 r = await call(proc, kind, fn)
+                if proc.stragglers:
+                    await asyncio.gather(*proc.stragglers, return_exceptions=True)
+                    proc.stragglers = []
                 for t in obs.txns:
                     if t["n"] == proc.txn_no and t["end"] is None and r["outcome"][0] != "raised":
                         t["end"] = (kind, r["outcome"], r["t_call"], r["t_return"])
@@ -258,6 +267,8 @@ async def _main(case, obs, loop, net):
             return
         try:
             await run_steps(proc, steps)
+            if proc.stragglers:
+                await asyncio.gather(*proc.stragglers, return_exceptions=True)
         finally:
             proc.finished = True
 
